@@ -249,7 +249,12 @@ class LoggingMonitor(pp.TransferMonitor):
                     cur = f.read()
             except FileNotFoundError:
                 cur = None
-            snap['dest'] = 'absent' if cur is None else ('complete' if cur == x.data else ('prev' if cur == x.prev else 'partial'))
+            except OSError:
+                cur = b'\0<not a regular file>'  # e.g. the destination name is a directory (it must simply still be one)
+            if os.path.isdir(x.dest):
+                snap['dest'] = 'dir'
+            else:
+                snap['dest'] = 'absent' if cur is None else ('complete' if cur == x.data else ('prev' if cur == x.prev else 'partial'))
         _, jobs_left, exc = self._peek(transfer_id)
         self.w.log.add('pp.done', label=f't{transfer_id}', jobs_left=jobs_left, exception=repr(exc) if exc else None, **snap)
         return super().notify_done(transfer_id)
